@@ -5,7 +5,7 @@ use std::{
     error::Error,
     f64::consts::{PI, TAU},
     fmt,
-    mem::{replace, take},
+    mem::take,
     slice,
 };
 
@@ -2117,13 +2117,30 @@ fn flip_unsplit_lines_impl(lines: Vec<Vec<Sp<Word>>>, in_array: bool) -> Vec<Vec
         // Reorder lines
         if let Some(word) = unsplit.as_ref().or(unsplit_front.as_ref()) {
             let prev = new_lines.last_mut().unwrap();
-            if in_array {
-                prev.push(word.span.clone().sp(Word::Spaces));
-                prev.extend(line);
+            let (front, back) = if in_array {
+                (take(prev), line)
             } else {
-                let taken_prev = replace(prev, line);
+                (line, take(prev))
+            };
+            // A comment that ends the front line goes to the end of the joined line,
+            // otherwise the words behind it would become comment text
+            *prev = front;
+            let comment = prev.pop_if(|w| {
+                matches!(
+                    w.value,
+                    Word::Comment(_) | Word::SemanticComment(_) | Word::OutputComment { .. }
+                )
+            });
+            if comment.is_some() {
+                trim_spaces(prev);
+            }
+            if comment.is_none() || !prev.is_empty() {
                 prev.push(word.span.clone().sp(Word::Spaces));
-                prev.extend(taken_prev);
+            }
+            prev.extend(back);
+            if let Some(comment) = comment {
+                prev.push(word.span.clone().sp(Word::Spaces));
+                prev.push(comment);
             }
         } else {
             new_lines.push(line);
